@@ -229,6 +229,57 @@ Definition c01_local (B T : schema) : bool :=
    | _, _ => false
    end)%bool.
 
+(* ---------- fourth rung: added columns may carry inline unique / index / foreign_key declarations ---------- *)
+(* the group keys a column declares inline; the constraints normalisation derives from the column when
+   it is the only member of each of its groups; inline_ok: no inline primary key, keys not repeated, not
+   shared with any other column of either side, the foreign key parses, and the derived constraints are
+   among the target's normalised constraints (so the planner's AddConstraint is skipped by `contains`) *)
+Definition sba_keys (auto : string) (o : option str_or_bool_or_array) : list string :=
+  match o with Some (SStr n) => [n] | Some (SBool true) => [auto] | Some (SArr l) => l | _ => [] end.
+Definition ukeys (c : column_def) : list string := sba_keys (auto_key (c_name c)) (c_unique c).
+Definition ikeys (c : column_def) : list string := sba_keys (auto_key (c_name c)) (c_index c).
+Definition fk_product (c : column_def) : list table_constraint :=
+  match c_foreign_key c with
+  | Some f => match fk_of_syntax (c_name c) f with
+              | Ok (t, rc, od, ou) => [CForeignKey None [c_name c] t rc od ou]
+              | Err _ => []
+              end
+  | None => []
+  end.
+Definition fk_parses (c : column_def) : bool :=
+  match c_foreign_key c with
+  | Some f => match fk_of_syntax (c_name c) f with Ok _ => true | Err _ => false end
+  | None => true
+  end.
+Definition col_products (c : column_def) : list table_constraint :=
+  map (fun key => CUnique (group_name key) [c_name c]) (ukeys c)
+  ++ fk_product c
+  ++ map (fun key => CIndex (group_name key) [c_name c]) (ikeys c).
+Definition keys_free_b (col c : column_def) : bool :=
+  (forallb (fun key => negb (mem_str key (ukeys col))) (ukeys c)
+   && forallb (fun key => negb (mem_str key (ikeys col))) (ikeys c))%bool.
+Definition inline_ok (b tn : table_def) (c : column_def) : bool :=
+  (is_none (c_primary_key c) && nodup_str (ukeys c) && nodup_str (ikeys c) && fk_parses c
+   && forallb (fun col => keys_free_b col c) (t_columns b)
+   && forallb (fun col => (String.eqb (c_name col) (c_name c) || keys_free_b col c)%bool) (t_columns tn)
+   && forallb (fun k => contains_constraint k (t_constraints tn)) (col_products c))%bool.
+Definition is_inl_action (b tn : table_def) (a : action) : bool :=
+  match a with
+  | ModifyColumnType _ _ _ _ | ModifyColumnNullable _ _ _ _
+  | ModifyColumnDefault _ _ _ | ModifyColumnComment _ _ _ => true
+  | AddConstraint _ _ => true
+  | AddColumn _ c _ => inline_ok b tn c
+  | _ => false
+  end.
+Definition inl_only (b tn : table_def) : bool :=
+  match table_group (t_name b) b tn with
+  | [] => true
+  | g => (forallb (is_inl_action b tn) g && nodup_str (colnames b)
+          && forallb default_renders (t_columns tn))%bool
+  end.
+Definition core_only (b tn : table_def) : bool := (change_only b tn || inl_only b tn)%bool.
+Definition c01_core (B T : schema) : bool := (baseline_ok B && c01_models core_only B T)%bool.
+
 (* ---------- lifted to correspondence cases ---------- *)
 Definition hyp_C01_first (c : m1_case) : bool := c01_first (baseline_of c) (k_models c).
 Definition hyp_C01_tables_only (c : m1_case) : bool := c01_tables_only (baseline_of c) (k_models c).
@@ -237,3 +288,5 @@ Definition hyp_C01_step (c : m1_case) : bool := c01_step (baseline_of c) (k_mode
 Definition hyp_C01_local (c : m1_case) : bool := c01_local (baseline_of c) (k_models c).
 Definition hyp_C01_grow (c : m1_case) : bool := c01_grow (baseline_of c) (k_models c).
 Definition hyp_C01_change (c : m1_case) : bool := c01_change (baseline_of c) (k_models c).
+Definition hyp_C01_inl (c : m1_case) : bool := (baseline_ok (baseline_of c) && c01_models inl_only (baseline_of c) (k_models c))%bool.
+Definition hyp_C01_core (c : m1_case) : bool := c01_core (baseline_of c) (k_models c).
